@@ -209,12 +209,23 @@ def proof_tree_generator_bfs(rules_dict: RulesDict, root: int) -> Iterator[Node]
                 root_node.children = list(children)
                 yield root_node
 
+    def _one_rule_per_label(tree: Node) -> bool:
+        """Sibling subtrees are built independently, so they may expand the same
+        label by different rules: such a tree is not a proof tree."""
+        chosen: Dict[int, Tuple[int, ...]] = {}
+        for node in tree.nodes():
+            if node.children:
+                rule = tuple(child.label for child in node.children)
+                if chosen.setdefault(node.label, rule) != rule:
+                    return False
+        return True
+
     sorted_rules_dict = {
         start: tuple(sorted(ends)) for start, ends in rules_dict.items()
     }
 
     if root in sorted_rules_dict:
-        yield from _bfs_helper(root, frozenset())
+        yield from filter(_one_rule_per_label, _bfs_helper(root, frozenset()))
 
 
 def proof_tree_generator_dfs(
